@@ -27,6 +27,6 @@ For each change deliver, under {out}/1/ and {out}/2/:
  * README.md — what the change is, why it breaks the property, what exactly is needed for it to manifest, the commands you ran and their results (build, existing tests with the change, demonstration with and without the change).
 Verify everything yourself: run the existing tests with the change applied, run the demonstration with and without it. Leave the worktree clean (git checkout -- . ; remove untracked files) when you are done.
 
-Environment: no network. Use `GOFLAGS=-mod=mod GOPROXY=off go build/test …` inside {wt}; do NOT set GOTOOLCHAIN or GOSUMDB. Wrap long commands in `timeout`. Never `pkill -f` with a pattern that could match your own shell. The vendored Prometheus packages in the module cache (promql engine, rulefmt) compile offline; promqltest/tsdb do not.
+Environment: no network. Use `GOFLAGS=-mod=mod GOPROXY=off go build/test …` inside {wt}; do NOT set GOTOOLCHAIN or GOSUMDB. Wrap long commands in `timeout`. Never `pkill -f` with a pattern that could match your own shell. NEVER use `git stash` (the stash is shared between worktrees and other people use sibling worktrees): to test without your change use `git diff > /tmp/x.diff; git checkout -- .; …; git apply /tmp/x.diff`. The project's cmd/pint script tests bind fixed TCP ports and other people run the same suite on this machine, so run test suites inside a private network namespace: `unshare -rn bash -c 'ip link set lo up; GOFLAGS=-mod=mod GOPROXY=off go test -vet=off -count=1 ./...'`. The vendored Prometheus packages in the module cache (promql engine, rulefmt) compile offline; promqltest/tsdb do not.
 
 Your final message: for each of the two changes, a 5-line summary (files touched, mechanism, what it needs to manifest, test-suite result, demonstration result). If you could only produce one valid change, say so.""")
